@@ -64,6 +64,16 @@ class S(V):
         return hash(("S", self.name))
 
 
+def _walk_same_scope(fn: ast.AST):
+    """the nodes of a function's own body, not those of functions / lambdas / classes nested in it"""
+    todo = list(ast.iter_child_nodes(fn))
+    while todo:
+        x = todo.pop()
+        yield x
+        if not isinstance(x, (ast.FunctionDef, ast.AsyncFunctionDef, ast.Lambda, ast.ClassDef)):
+            todo.extend(ast.iter_child_nodes(x))
+
+
 class R(V):
     def __init__(_self, _kind: str, **fields: Any) -> None:  # noqa: N805 - `kind`/`self` may be field names
         _self.kind = _kind
@@ -752,11 +762,24 @@ class Interp:
                 if gk.startswith("__global__:") and gk not in st.env:
                     st.env[gk] = gv
             return v
+        is_gen = any(isinstance(x, (ast.Yield, ast.YieldFrom)) for x in _walk_same_scope(node))
+        mark = len(sub.effects)
         outs = self.run(node.body, sub)
         for o_ in outs:
             for gk, gv in o_.env.items():
                 if gk.startswith("__global__:") and gk not in st.env:
                     st.env[gk] = gv
+        if is_gen:
+            # a local GENERATOR function: interpreted eagerly, what it yields is the sequence its caller walks
+            if len(outs) != 1 or any(e_[0] == "yield-from" for e_ in sub.effects[mark:]):
+                return U("local generator forked")
+            o_g = outs[0]
+            if o_g.term is not None and o_g.term[0] == "raise":
+                st.pending = st.pending or str(o_g.term[1])
+                return U("raises")
+            ys = [(e_[2] if len(e_) > 2 and isinstance(e_[2], Ref) and e_[2].kind == "obj" else e_[1]) for e_ in sub.effects[mark:] if e_[0] == "yield"]
+            sub.effects[mark:] = [e_ for e_ in sub.effects[mark:] if e_[0] != "yield"]
+            return K(tuple(ys))
         if len(outs) != 1:
             vals = [o.term[1] if o.term and o.term[0] == "return" else K(None) for o in outs]
             return vals[0] if vals and all(v == vals[0] for v in vals) else U("local function forked")
